@@ -647,6 +647,15 @@ pub fn c18(tier: &str, seed: u64, ops: Option<&[String]>) -> Report {
                 }
             }
         }
+        if spec && !s.is_empty() && s.len() <= 300 && s.bytes().any(|b| b.is_ascii_alphabetic()) {
+            // inside a v5 PUBLISH next to a Response Topic that differs only in ASCII case: both texts come back exactly
+            for resp in [s.to_ascii_uppercase(), s.to_ascii_lowercase(), s.clone()] {
+                match crate::pkt::name_with_similar_response_topic(&s, &resp) {
+                    Some((t, r, sys, sh)) if t == s && r.as_deref() == Some(resp.as_str()) && sys == s.starts_with("$SYS/") && sh == s.starts_with("$share/") => {}
+                    other => rep.fail("name-packet-text", input.clone(), format!("v5 PUBLISH with topic {:?} and response topic {:?} decoded to {:?}", s, resp, other)),
+                }
+            }
+        }
         if s.len() <= 65535 {
             for (what, accepted) in crate::pkt::name_in_packets(&s) {
                 if accepted != spec {
@@ -1078,7 +1087,11 @@ pub fn c13(tier: &str, seed: u64, ops: Option<&[String]>) -> Report {
         let got = futures_lite::future::block_on(Protocol::decode_async(&mut rd));
         let good = match (pair(name, level), &got) {
             (Some(p), Ok(q)) => p == *q && rd.is_empty(),
-            (None, Err(e)) => !e.is_eof(),
+            // an invalid pair is reported as InvalidProtocol carrying name and level; a name that is not UTF-8 as InvalidString
+            (None, Err(e)) => match std::str::from_utf8(name) {
+                Ok(t) => *e == Error::InvalidProtocol(t.to_string(), level),
+                Err(_) => *e == Error::InvalidString,
+            },
             _ => false,
         };
         if !good {
